@@ -46,6 +46,9 @@ CLAIMED['C21'] = ("checkSQLAllowed for a read-only user (with and without read/w
 CLAIMED['C22'] = ("the replica decision (Preview + Tokenize + checkExecuteFromSlave) for a read/write-split user outside a transaction sends a statement to a replica only if it is a plain SELECT/SHOW: 17 statement forms (locking reads with NOWAIT/SKIP LOCKED, master hint leading/inline/trailing, read_only probes, DML) x symbolic letter case of the deciding keywords x leads x trails (whitespace byte, ';', block comment, line comment)",
     "decision function only (the connection actually taken from Slice.GetConn and the in-transaction branch are part of C18's subject); CheckSelectLock on; strings.ToLower/EqualFold replaced by non-forking ASCII equivalents under the engine; misrouting after a trailing ';' or comment is recorded as known findings C22-*")
 
+CLAIMED['C30'] = ("the real handleHandshakeResponse (plugin/length dispatch, UserManager.Check*, mysql.CalcPassword / CheckHashPassword / CalcCachingSha2Password) accepts a response iff it is the native or caching-sha2 proof of a stored password, for a symbolic 20-byte salt, stored passwords in clear (1..2 symbolic bytes) or as '*' hash of a symbolic 20-byte value, responses of length 0/19/20/21/32 and the three plugin names",
+    "SHA-1 and SHA-256 are uninterpreted, collision-free functions (Ackermann constraints written in the harness; natively patched with mockey so that replays run under the same model): the hash implementations and collision resistance are outside the claim; hex decoding of the stored hash is a non-forking stub under the engine; known findings C30-hash-*")
+
 NA_REASON = "check not built yet (work in progress; see DESIGN.md section 3 for the planned harness)"
 NA = {}
 
